@@ -12,6 +12,7 @@ Oracle (no model): on the real trace — every dependency's successful end prece
 import concurrent.futures as cf
 import json, os
 from checks import _walker as W
+from checks import _cliworld
 
 PROPERTY = "C03"
 LEVEL = "proof"
@@ -154,6 +155,9 @@ def run(ctx):
     for c, o in list(zip(cases, outs))[:2]:
         ctx.sample({"n": c["n"], "family": c["family"], "failFast": c["failFast"], "workers": c["workers"], "trace_head": o.get("trace", [])[:8]})
     run_cli(ctx)
+    # ---- broad randomized CLI worlds (shared generator; all oracles run, the C03-owned ones are reported here) ----
+    results, cov = _cliworld.run_worlds(ctx, 30 if quick else 300, "C03")
+    _cliworld.report(ctx, results, cov, "C03")
     ctx.coverage["evaluations"] += ctx.coverage.get("cli_builds", 0) + ctx.coverage.get("oncomplete_step_cases", 0)
     if disagreements and not ctx.violations:
         c, o, r = min(disagreements, key=lambda t: t[0]["n"])
@@ -272,7 +276,7 @@ def run_cli(ctx):
     quick = ctx.tier == "quick"
     if ctx.grog_binary() is None:
         return
-    seeds = [ctx.rng.randrange(1 << 30) for _ in range(24 if quick else 240)]
+    seeds = [ctx.rng.randrange(1 << 30) for _ in range(8 if quick else 120)]     # the targeted corpus + a few; breadth comes from _cliworld
     results = []
     with cf.ThreadPoolExecutor(max_workers=4) as ex:
         futs = [ex.submit(cli_case, ctx, 1000 + j, 7 + j, t) for j, t in enumerate(TARGETED_CLI)]     # the slow ones first
@@ -300,6 +304,8 @@ def run_cli(ctx):
 
 
 def replay(ctx, rep):
+    if "world" in rep:
+        return _cliworld.replay(ctx, rep)
     c = rep.get("case")
     if rep.get("build"):
         b = rep["build"]
